@@ -50,6 +50,8 @@ def _opts(rnd, fill_ok=True):
         o['keep_comments'] = True
     if rnd.random() < 0.3:
         o['keep_braced_groups'] = True
+        if rnd.random() < 0.6:
+            o['keep_braced_groups_minlen'] = rnd.choice([0, 0, 1, 2, 3])
     if fill_ok and rnd.random() < 0.25:
         o['fill_text'] = rnd.choice([True, 20, 5, 80])
     return o
@@ -77,6 +79,12 @@ def gen_cases(seed, tier):
         shapes = SHAPES if not quick else rnd.sample(SHAPES[:-6], 6) + SHAPES[-6:]
         for sh in shapes:
             cases.append(_case(sh.replace('%s', m), _opts(rnd), 'name-shape'))
+    # text with percent signs reaching the title block (the formatter must treat it as text, not as a template)
+    for tt in ('Saving 100\\% of time', 'a\\%s b', '\\%', '\\%d \\%(x)s', '50\\%\\%'):
+        for m in ('title', 'author', 'date'):
+            others = ''.join('\\%s{X}' % x for x in ('title', 'author', 'date') if x != m and rnd.random() < 0.5)
+            cases.append(_case('\\%s{%s}%s\\maketitle' % (m, tt, others), _opts(rnd), 'title-block'))
+    cases.append(_case('\\title\\%\\maketitle x \\maketitle', _opts(rnd), 'title-block'))
     for e in envs:
         for sh in ENV_SHAPES:
             cases.append(_case(sh.replace('%s', e), _opts(rnd), 'env-shape'))
